@@ -186,48 +186,84 @@ func (m MatcherSpec) admissible() error {
 // ---------------------------------------------------------------------------
 
 type extracted struct {
-	LineNo uint64
-	Line   string
-	Idx    []int
-	Text   string
+	Logical int // index of the generated line this match belongs to
+	LineNo  uint64
+	Line    string
+	Idx     []int
+	Text    string
 }
 
 // runExtractor feeds the lines (each repeated reps times, in batches) through
-// extractor.New and returns what came out, ordered by line number.
-func runExtractor(f matchers.Factory, expr string, lines []string, reps, workers, batch int) ([]extracted, error) {
+// extractor.New and returns what came out, ordered by generated line. With
+// sources > 1 the generated lines are dealt round-robin to that many inputs,
+// each numbering its lines from 1, and the batches of the inputs are sent
+// alternately - the way several files reach one worker - so that different
+// matches carry the same line number.
+func runExtractor(f matchers.Factory, expr string, lines []string, reps, workers, batch, sources int) ([]extracted, error) {
+	if sources < 1 {
+		sources = 1
+	}
 	in := make(chan extractor.InputBatch, 4)
 	ex, err := extractor.New(in, &extractor.Config{Matcher: f, Extract: expr, Workers: workers})
 	if err != nil {
 		close(in)
 		return nil, fmt.Errorf("extractor.New(%q): %v", expr, err)
 	}
-	go func() {
+	type key struct {
+		src string
+		no  uint64
+	}
+	logical := map[key]int{}
+	perSource := make([][]extractor.InputBatch, sources)
+	for si := 0; si < sources; si++ {
+		src := "src"
+		if sources > 1 {
+			src = fmt.Sprintf("src%d", si)
+		}
 		var cur []extractor.BString
-		start := uint64(1)
-		n := uint64(0)
-		for _, l := range lines {
+		start, n := uint64(1), uint64(0)
+		for li := si; li < len(lines); li += sources {
 			for r := 0; r < reps; r++ {
-				cur = append(cur, extractor.BString(append([]byte(nil), l...)))
+				cur = append(cur, extractor.BString(append([]byte(nil), lines[li]...)))
 				n++
+				logical[key{src, n}] = li
 				if len(cur) >= batch {
-					in <- extractor.InputBatch{Batch: cur, Source: "src", BatchStart: start}
+					perSource[si] = append(perSource[si], extractor.InputBatch{Batch: cur, Source: src, BatchStart: start})
 					start += uint64(len(cur))
 					cur = nil
 				}
 			}
 		}
 		if len(cur) > 0 {
-			in <- extractor.InputBatch{Batch: cur, Source: "src", BatchStart: start}
+			perSource[si] = append(perSource[si], extractor.InputBatch{Batch: cur, Source: src, BatchStart: start})
+		}
+	}
+	go func() {
+		for k := 0; ; k++ {
+			sent := false
+			for si := range perSource {
+				if k < len(perSource[si]) {
+					in <- perSource[si][k]
+					sent = true
+				}
+			}
+			if !sent {
+				break
+			}
 		}
 		close(in)
 	}()
 	var out []extracted
 	for b := range ex.ReadChan() {
 		for _, m := range b {
-			out = append(out, extracted{LineNo: m.LineNumber, Line: strings.Clone(m.Line), Idx: append([]int(nil), m.Indices...), Text: m.Extracted})
+			li, ok := logical[key{m.Source, m.LineNumber}]
+			if !ok {
+				li = -1
+			}
+			out = append(out, extracted{Logical: li, LineNo: m.LineNumber, Line: strings.Clone(m.Line), Idx: append([]int(nil), m.Indices...), Text: m.Extracted})
 		}
 	}
-	sort.Slice(out, func(i, j int) bool { return out[i].LineNo < out[j].LineNo })
+	sort.SliceStable(out, func(i, j int) bool { return out[i].Logical < out[j].Logical })
 	return out, nil
 }
 
@@ -271,6 +307,8 @@ type ViewCase struct {
 	Reps    int       // evaluations of each match
 	Workers int       // extractor goroutines
 	Batch   int       // lines per input batch
+	Sources int       // inputs the lines are dealt to, each numbering from 1 (0 = 1)
+	Twice   bool      // the view is evaluated twice inside one expression: "{K}<TAB>{K}"
 	Obs     *pbt.Obs  `json:"-"`
 }
 
@@ -313,7 +351,12 @@ func checkViewCase(c ViewCase) error {
 	for i, vals := range c.Lines {
 		lines[i] = c.M.line(vals)
 	}
-	out, err := runExtractor(f, "{"+c.Key+"}", lines, reps, workers, batch)
+	expr := "{" + c.Key + "}"
+	if c.Twice {
+		// a raw TAB cannot occur inside the rendered object (JSON escapes it)
+		expr = expr + "\t" + expr
+	}
+	out, err := runExtractor(f, expr, lines, reps, workers, batch, c.Sources)
 	if err != nil {
 		return err
 	}
@@ -321,7 +364,15 @@ func checkViewCase(c ViewCase) error {
 	first := map[int]string{} // logical line -> first rendering
 	matched := 0
 	for _, e := range out {
-		li := int((e.LineNo - 1) / uint64(reps))
+		if c.Twice {
+			a, b, ok := strings.Cut(e.Text, "\t")
+			if !ok || a != b {
+				return fmt.Errorf("%s pattern %s, line %s: {%s} evaluated twice in one expression rendered two different texts:\n %s",
+					c.M.Kind, pbt.Q([]byte(c.M.pattern())), pbt.Q([]byte(e.Line)), c.Key, pbt.Q([]byte(e.Text)))
+			}
+			e.Text = a
+		}
+		li := e.Logical
 		if li < 0 || li >= len(lines) || e.Line != lines[li] {
 			// not this property's business (C02), and nothing can be compared
 			c.Obs.Label(true, "line-number-mismatch")
@@ -379,6 +430,8 @@ func classifyView(c ViewCase) (bool, []string) {
 	}
 	l.Add(true, fmt.Sprintf("named-groups=%d", min(named, 5)))
 	l.Add(c.Workers > 1, "workers>1")
+	l.Add(c.Sources > 1, "several-sources")
+	l.Add(c.Twice, "view-twice-in-one-expression")
 	hostile := false
 	seen := map[string]bool{}
 	for _, vals := range c.Lines {
@@ -507,12 +560,17 @@ func genView(t *rapid.T) ViewCase {
 	} else {
 		c.M = genRegexSpec(t)
 	}
+	c.Sources = rapid.SampledFrom([]int{1, 1, 2, 3}).Draw(t, "sources")
 	nl := rapid.IntRange(1, 3).Draw(t, "lines")
+	if c.Sources > 1 {
+		nl = rapid.IntRange(2, 6).Draw(t, "lines2")
+	}
 	for i := 0; i < nl; i++ {
 		c.Lines = append(c.Lines, genLineValues(t, c.M, nil))
 	}
 	c.Key = rapid.SampledFrom(viewKeys).Draw(t, "key")
-	c.Reps = rapid.SampledFrom([]int{1, 8, 32, 32, 64}).Draw(t, "reps")
+	c.Twice = rapid.IntRange(0, 3).Draw(t, "twice") == 0
+	c.Reps = rapid.SampledFrom([]int{1, 1, 8, 32, 32, 64}).Draw(t, "reps")
 	c.Workers = rapid.SampledFrom([]int{1, 1, 2, 4}).Draw(t, "workers")
 	c.Batch = rapid.SampledFrom([]int{1, 4, 1000}).Draw(t, "batch")
 	return c
@@ -520,7 +578,7 @@ func genView(t *rapid.T) ViewCase {
 
 var viewSpec = pbt.Spec[ViewCase]{
 	Property: "C16", Name: "view",
-	Rule:   "real matcher (regexp with 0-5 capture sites: named/unnamed, optional non-participating, nested; or dissect with arbitrary-text token names, skip tokens, multi-byte delimiters) x 1-3 lines whose captured texts come from a hostile alphabet (all control characters, quote, backslash, slash, DEL, non-ASCII, invalid UTF-8, numeric spellings incl. leading zeros/signs/exponents/30 digits, true/false/null spellings, JSON-injection fragments, empty) x key in {. # .# #.} x each line evaluated 1..64 times through extractor.New with 1..4 workers. Oracle: own RFC 8259 recogniser and encoding/json both accept one object and agree; members = groups (names from the generated matcher, texts from the real match indices), each a string equal to the captured text (invalid UTF-8 modulo U+FFFD), or a number of equal exact decimal value, or a boolean equal to the ASCII-folded text; every evaluation of one match gives one text. Non-trivial: the line matched and (>=2 named groups shown and >=2 evaluations, or a captured text that needs escaping or is a non-canonical numeric spelling, or a group name that needs escaping)",
+	Rule:   "real matcher (regexp with 0-5 capture sites: named/unnamed, optional non-participating, nested; or dissect with arbitrary-text token names, skip tokens, multi-byte delimiters) x 1-3 lines whose captured texts come from a hostile alphabet (all control characters, quote, backslash, slash, DEL, non-ASCII, invalid UTF-8, numeric spellings incl. leading zeros/signs/exponents/30 digits, true/false/null spellings, JSON-injection fragments, empty) x key in {. # .# #.} (1 in 4: twice inside one expression) x each line evaluated 1..64 times through extractor.New with 1..4 workers, the lines dealt to 1-3 inputs that each number their lines from 1 and whose batches alternate (different matches then carry the same line number on one worker). Oracle: own RFC 8259 recogniser and encoding/json both accept one object and agree; members = groups (names from the generated matcher, texts from the real match indices), each a string equal to the captured text (invalid UTF-8 modulo U+FFFD), or a number of equal exact decimal value, or a boolean equal to the ASCII-folded text; every evaluation of one match gives one text. Non-trivial: the line matched and (>=2 named groups shown and >=2 evaluations, or a captured text that needs escaping or is a non-canonical numeric spelling, or a group name that needs escaping)",
 	Budget: pbt.Budget{Quick: 64000, Thorough: 640000},
 	Gen:    genView, Check: checkViewCase, Classify: classifyView,
 }
